@@ -5,12 +5,10 @@ go 1.19
 require (
 	c2sp.org/CCTV/age v0.0.0-20240306222714-3ec4d716e805
 	filippo.io/age v0.0.0
+	filippo.io/edwards25519 v1.1.0
 	golang.org/x/crypto v0.24.0
 )
 
-require (
-	filippo.io/edwards25519 v1.1.0 // indirect
-	golang.org/x/sys v0.21.0 // indirect
-)
+require golang.org/x/sys v0.21.0 // indirect
 
 replace filippo.io/age => /repo
